@@ -1339,7 +1339,13 @@ How the text below is obtained (TRUSTED part of the translator, in addition to G
  * locals are `let`s, an assignment introduces a new version of the name; a `DeadlineLimited` object
    is its two fields (constructor = `Clocked_ctor_now` then `DeadlineLimited_deadline`; `Tick()` =
    `Clocked_Tick`, both read from the AST of wait.h); a `std::string_view(p, n)` is (offset, length),
-   `remove_prefix(k)` adds k to the offset and subtracts it from the length (precondition k <= size());
+   `remove_prefix(k)` adds k to the offset (precondition k <= size());
+ * `Driver::DriverImpl::StepTodos<Deadline>` (one definition per instantiation) runs over `TodoWorld` (prelude):
+   `front->when` with `auto &front = todos.front()` is `W.frontWhen`, `todos.pop_front()` after
+   `auto task = std::move(front)` is `W.popFront`, `task->what()` is `W.runTask`, `todos.empty()` is `W.todosEmpty`;
+   the deadline object is the fields of its flavour, its `Remaining()/TimeLeft()` the stage-1 leaves of that flavour;
+ * a `string_view` is its cursor plus the text of its immutable end (length = end - cursor); the fixed arguments of a
+   loop are all parameters and all locals it does not change, in declaration order (canonical loop signature);
  * `do B while(c)`, `for(;;) B`, `while(c) B` become `<F>_loop<k>`: structural recursion on a fuel
    counter `n` (`0 => M.halt`), arguments = the locals the loop assigns, `break` / the false condition
    continue with the statements after the loop (inlined), `return` ends the function; the function
